@@ -7,7 +7,8 @@ pass     == Sc(<<"m", "m">>, <<>>, 1, 0)                 \* traffic against the 
 pillq    == Sc(<<"m", "m">>, <<"pill">>, 0, 0)           \* explicit deactivation against traffic (and the re-activation race)
 passpill == Sc(<<"m">>, <<"pill">>, 1, 0)                \* explicit deactivation against passivation
 shut     == Sc(<<"m", "m">>, <<>>, 1, 1)                 \* system shutdown against traffic and passivation
-Quick == {pass, pillq, passpill, shut}
+pillshut == Sc(<<"m">>, <<"pill">>, 0, 1)                \* explicit deactivation against system shutdown (two pills)
+Quick == {pass, pillq, passpill, shut, pillshut}
 \* thorough tier
 Thorough == {Sc(<<"m", "m">>, <<"pill", "m">>, 1, 0), Sc(<<"m", "pill">>, <<"m">>, 1, 1), Sc(<<"m", "m">>, <<"m", "m">>, 1, 0)}
 PassOnly == {pass}
